@@ -355,7 +355,7 @@ def check(case, rec):
 
 # ---------------------------------------------------------------- lazy fibers and adoption
 LAZY = ["and", "or", "xor", "sub", "lshift", "intersection", "union", "leader-follower", "project", "project-interval",
-        "prune", "coiterShape", "coiterActiveShape", "coiterRangeShape", "adopt"]
+        "prune", "coiterShape", "coiterActiveShape", "coiterRangeShape", "adopt", "lazy-first", "lazy-first"]
 
 
 @st.composite
@@ -435,6 +435,26 @@ def check_lazy(case, rec):
         rng = (case["lo"], case["lo"] + case["len"])
         want(Fiber.coiterRangeShape([a, b], rng[0], rng[1], case["step"]), ida, rng, "coiterRangeShape")
         want(Fiber.coiterRangeShapeRef([a, b], rng[0], rng[1], case["step"]), ida, rng, "coiterRangeShapeRef")
+    elif op == "lazy-first":
+        # the first operand is itself a lazily produced fiber: its rank id and active range are the ones the
+        # rules above gave it, and the outer operation hands them on
+        c = mkfiber(case["b"], S)
+        k = case["k"]
+        inner = [("a & b", lambda: a & b, ida, acta), ("a | b", lambda: a | b, ida, acta),
+                 ("a - b", lambda: a - b, ida, acta),
+                 ("a.project(c+k)", lambda: a.project(trans_fn=lambda x: x + k, rank_id="P"), "P",
+                  (acta[0] + k, acta[1] + k)),
+                 ("a.prune", lambda: a.prune(trans_fn=lambda i, x, p: True), ida, acta)][case["lo"] % 5]
+        name, mk, rid, act = inner
+        outer = case["len"] % 4
+        if outer == 0:
+            want(mk() & c, rid, act, f"({name}) & c")
+        elif outer == 1:
+            want(mk() | c, rid, act, f"({name}) | c")
+        elif outer == 2:
+            want(mk() - c, rid, act, f"({name}) - c")
+        else:
+            want(mk().prune(trans_fn=lambda i, x, p: True), rid, act, f"({name}).prune")
     elif op == "adopt":
         # an unowned fiber with attributes of its own joins a tensor
         u = Fiber(case["a"]["coords"], case["a"]["vals"], shape=case["shape2"] + S, default=7)
